@@ -1,5 +1,6 @@
 import ServiceModel.Proofs.Reachable
 import ServiceModel.Proofs.Debit
+import ServiceModel.Proofs.DebitBlock
 /-!
 # C05 — Only the rightful party can act, and a message debits only its signer
 -/
@@ -113,7 +114,6 @@ theorem bind_respects_ownership (s : State) (svc : SvcName) (pv o : Addr) (dep :
   rw [ho2] at h4
   simp at h4
   exact h4
-
 end SM.C05
 
 namespace SM.C05
@@ -244,7 +244,6 @@ theorem respond_debits_only_module (s : State) (r : ReqId) (pv : Addr) (code : N
         dsimp only
         have := settle_debits_only_module hs a ha
         split <;> exact this
-
 end SM.C05
 
 namespace SM.C05
@@ -308,5 +307,17 @@ theorem new_batch_lowers_only_its_consumer (s : State) (c : CtxId) (x : Ctx) (hx
     (a : Addr) (ha : ¬ s.custody a) (hne : a ≠ x.cons) :
     balOf s.bank.bal a ≤ balOf (newBatch s c).s.bank.bal a :=
   (newBatch_balMono s c x hx).2 a ha (by simpa using hne)
+
+/-- The end of a block as a whole (both phases, any number of expiring and starting batches), in every reachable
+    state: an account that is neither a custody account nor the consumer of a context existing when the block ends
+    holds at least as much afterwards as before — the end blocker only spends custody money and charges consumers
+    for their own batches. -/
+theorem end_of_block_lowers_only_custody_and_consumers {cfg : Config} {p : Params} {h0 t0 : Int} (hc : CfgOK cfg p)
+    {s : State} (hr : Reachable cfg p h0 t0 s) (dt : Int) (a : Addr) (ha : ¬ s.custody a)
+    (hcons : ∀ c x, Map.get s.ctxs c = some x → x.cons ≠ a) :
+    balOf s.bank.bal a ≤ balOf (endBlock s dt).s.bank.bal a := by
+  refine (endBlock_balMono s dt (reachable_inv hc hr)).2 a ha (fun hin => ?_)
+  obtain ⟨c, x, hg, he⟩ := (mem_consumersOf_iff s a).mp hin
+  exact hcons c x hg he
 
 end SM.C05
